@@ -90,9 +90,17 @@ def run(repo, rep, tier):
         if isinstance(n, ast.Call) and isinstance(n.func, ast.Attribute) and n.func.attr == "pop" and n.args and isinstance(n.args[0], ast.Constant):
             stripped.add(n.args[0].value)
     # filtering form: {k: v for k, v in self.__dict__.items() if k not in <constants>}  (constants: a literal or a module-level constant)
+    gs_locals = {}
+    for st0 in walk_local_stmt(gs.node):
+        if isinstance(st0, ast.Assign) and len(st0.targets) == 1 and isinstance(st0.targets[0], ast.Name):
+            gs_locals.setdefault(st0.targets[0].id, []).append(st0.value)
+
     def const_strings(e):
         if isinstance(e, ast.Name):
-            e = gs.module.assigns.get(e.id, e)
+            if len(gs_locals.get(e.id, [])) == 1:
+                e = gs_locals[e.id][0]          # a local constant such as `dynamic = ("fill", "plot")`
+            else:
+                e = gs.module.assigns.get(e.id, e)
         if isinstance(e, (ast.List, ast.Tuple, ast.Set)):
             return [x.value for x in e.elts if isinstance(x, ast.Constant) and isinstance(x.value, str)]
         if isinstance(e, ast.Call) and isinstance(e.func, ast.Name) and e.func.id in ("frozenset", "set", "tuple", "list") and e.args:
